@@ -157,12 +157,14 @@ def rule_c(ctx: Context, R: Reporter, hc: ClassInfo):
     R.floor("C15.c", "child selections", len(comps), 2)
     sel_vals = []
     srcs = set()
+    label_src = []
     for (nd, lc) in comps[:2]:
         cond = lc.generators[0].ifs[0]
         ok = isinstance(cond, ast.Compare) and len(cond.ops) == 1 and isinstance(cond.ops[0], ast.Eq) and isinstance(const_value(cond.comparators[0]), int)
         if ok:
             sel_vals.append(const_value(cond.comparators[0]))
         srcs.add(norm_text(lc.elt) + "|" + norm_text(lc.generators[0].iter) + "|" + norm_text(cond.left if isinstance(cond, ast.Compare) else cond))
+        label_src.append(_label_source(lc))
     R.check("C15.c", "children are the label == 0 and label == 1 selections of the same index list", sorted(sel_vals) == [0, 1] and len(srcs) == 1, fit, comps[0][0].stmt,
             msg=f"{fit.short}: children select labels {sel_vals} from {len(srcs)} distinct source expression(s): points could be lost or duplicated", key="children-partition")
     # the labelling model has two components
@@ -174,8 +176,7 @@ def rule_c(ctx: Context, R: Reporter, hc: ClassInfo):
             tgt = nd.stmt.targets[0].id if nd is not None and isinstance(nd.stmt, ast.Assign) and isinstance(nd.stmt.targets[0], ast.Name) else None
             # the model whose predict produces the split labels
             for (cn, lc) in comps[:1]:
-                lab = lc.generators[0].ifs[0].left
-                labname = lab.value.id if isinstance(lab, ast.Subscript) and isinstance(lab.value, ast.Name) else None
+                labname = _label_source(lc)
                 if labname:
                     for d in flow.reaching(cn, labname):
                         if d.value is not None and isinstance(d.value, ast.Call) and isinstance(d.value.func, ast.Attribute) and d.value.func.attr == "predict" and isinstance(d.value.func.value, ast.Name) and d.value.func.value.id == tgt:
@@ -209,22 +210,56 @@ def rule_c(ctx: Context, R: Reporter, hc: ClassInfo):
         R.check("C15.c", "the probability matrix has one column per cluster", ok, prob, prob.node, msg=f"{prob.short}: probability matrix is not allocated with n_clusters_ columns", key="prob-columns")
 
 
+def _label_source(lc: ast.ListComp) -> Optional[str]:
+    """Name of the label vector tested by a child-selection comprehension:
+    `labels[i] == c` or `lab == c` with `for i, lab in enumerate(labels)` / zip(indices, labels)."""
+    cond = lc.generators[0].ifs[0]
+    if not isinstance(cond, ast.Compare):
+        return None
+    lab = cond.left
+    if isinstance(lab, ast.Subscript) and isinstance(lab.value, ast.Name):
+        return lab.value.id
+    if isinstance(lab, ast.Name):
+        g = lc.generators[0]
+        it = g.iter
+        if isinstance(it, ast.Call) and dotted(it.func) in ("enumerate", "zip") and isinstance(g.target, ast.Tuple):
+            names = [t.id if isinstance(t, ast.Name) else None for t in g.target.elts]
+            if lab.id in names:
+                pos = names.index(lab.id)
+                if dotted(it.func) == "enumerate" and pos == 1 and it.args and isinstance(it.args[0], ast.Name):
+                    return it.args[0].id
+                if dotted(it.func) == "zip" and pos < len(it.args) and isinstance(it.args[pos], ast.Name):
+                    return it.args[pos].id
+    return None
+
+
 def rule_d(ctx: Context, R: Reporter, gc: ClassInfo):
     m = gc.methods["_m_step"]
-    ok = False
-    for n in walk_no_nested(m.node):
-        if isinstance(n, ast.AugAssign) and isinstance(n.op, ast.Div) and isinstance(n.target, ast.Name) and isinstance(n.value, ast.Call) and (ctx.res.external_name(m, n.value) or "") == "numpy.sum" \
-                and n.value.args and norm_text(n.value.args[0]) == n.target.id:
-            ok = n.target.id
-        if isinstance(n, ast.Assign) and isinstance(n.value, ast.BinOp) and isinstance(n.value.op, ast.Div) and isinstance(n.value.right, ast.Call) and (ctx.res.external_name(m, n.value.right) or "") == "numpy.sum" \
-                and n.value.right.args and norm_text(n.value.right.args[0]) == norm_text(n.value.left) and isinstance(n.targets[0], ast.Name):
-            ok = n.targets[0].id
-    rets = [r for r in walk_no_nested(m.node) if isinstance(r, ast.Return) and isinstance(r.value, ast.Tuple)]
-    first = rets[0].value.elts[0].id if rets and isinstance(rets[0].value.elts[0], ast.Name) else None
-    R.check("C15.d", "the M-step returns mixture weights normalised to sum to one", bool(ok) and ok == first, m, rets[0] if rets else m.node,
-            msg=f"{m.short}: the first returned value `{first}` is not self-normalised (x / sum(x))", key="mstep-normalised")
-    nonneg = any(isinstance(n, ast.Assign) and isinstance(n.targets[0], ast.Name) and n.targets[0].id == first and isinstance(n.value, ast.Call) and (ctx.res.external_name(m, n.value) or "") == "numpy.sum" for n in walk_no_nested(m.node))
-    R.check("C15.d", "mixture weights are sums of responsibilities times sample weights (non-negative)", nonneg, m, m.node, msg=f"{m.short}: `{first}` is not a column sum of the weighted responsibilities", key="mstep-sum")
+    flow = flow_of(m.node)
+    rets = [n for n in flow.cfg.stmt_nodes() if n.kind == "stmt" and isinstance(n.stmt, ast.Return) and isinstance(n.stmt.value, ast.Tuple)]
+    if not rets:
+        raise AnalysisError("C15.d: M-step does not return a tuple")
+    rn = rets[0]
+    first = rn.stmt.value.elts[0]
+    normalised = False
+    colsum = False
+    if isinstance(first, ast.Name):
+        from .c20 import chain_defs
+
+        for d in chain_defs(flow, rn, first.id):
+            if d.kind == "aug" and isinstance(d.value.op, ast.Div) and isinstance(d.value.value, ast.Call) and (ctx.res.external_name(m, d.value.value) or "") == "numpy.sum" and d.value.value.args and norm_text(d.value.value.args[0]) == first.id:
+                normalised = True
+            if d.kind == "assign" and d.value is not None:
+                rv = ExprResolver(m.node).resolve(d.value, d.node)
+                if isinstance(rv, ast.BinOp) and isinstance(rv.op, ast.Div) and isinstance(rv.right, ast.Call) and (ctx.res.external_name(m, rv.right) or "") == "numpy.sum" and rv.right.args and norm_text(rv.right.args[0]) == norm_text(rv.left):
+                    normalised = True
+                    rv = rv.left
+                if isinstance(rv, ast.Call) and (ctx.res.external_name(m, rv) or "") == "numpy.sum" and any(k.arg == "axis" and const_value(k.value) == 0 for k in rv.keywords):
+                    colsum = True
+    R.check("C15.d", "the M-step returns mixture weights normalised to sum to one", normalised, m, rn.stmt,
+            msg=f"{m.short}: the first returned value `{unparse(first)}` is not self-normalised (x / sum(x))", key="mstep-normalised")
+    R.check("C15.d", "mixture weights are sums of responsibilities times sample weights (non-negative)", colsum, m, rn.stmt,
+            msg=f"{m.short}: `{unparse(first)}` is not a column sum of the weighted responsibilities", key="mstep-sum")
 
 
 def rule_e(ctx: Context, R: Reporter, gc: ClassInfo, hc: ClassInfo):
